@@ -1,0 +1,11 @@
+// Copyright 2021-present The Atlas Authors. All rights reserved.
+// This source code is licensed under the Apache 2.0 license found
+// in the LICENSE file in the root directory of this source tree.
+
+//go:build !verif
+
+package cmdapi
+
+// verifPoint is a named no-op crash point. It is only active in builds
+// tagged with "verif" (used by crash-consistency checks).
+func verifPoint(string) {}
